@@ -339,6 +339,17 @@ def compare(orig_spec, shape, classes, new, path, v):
             v('undeclared-member-restored', f'{path}.{key}')
 
 
+def _futures_of(obj, path, depth=0):
+    """Every SavableFuture reachable through the members of a restored object."""
+    if depth > 6:
+        return
+    for key, val in list(vars(obj).items()):
+        if isinstance(val, persistence.SavableFuture):
+            yield f'{path}.{key}', val
+        elif isinstance(val, persistence.Savable):
+            yield from _futures_of(val, f'{path}.{key}', depth + 1)
+
+
 def _mutate_value(val):
     """Mutate a container in place, at every nesting level."""
     if isinstance(val, list):
@@ -385,6 +396,9 @@ def execute(case):
             v('declaration-set', f"{spec['name']}: auto-persist set {sorted(got)} expected {sorted(declared(shape, spec['name'], manual=False))}")
     loop = StepLoop()
     asyncio.set_event_loop(loop)
+    # the state is loaded for another loop than the one that is current (and running) at that moment: the load context
+    # says where the futures live (a context the caller keeps using carries the loop it was made with)
+    load_loop = StepLoop()
     prev_global = loaders.get_object_loader()
     custom = loaders_h.TagLoader()
     loaders_h.TagLoader.reset()
@@ -451,18 +465,18 @@ def execute(case):
                     # the loader that named everything at save time (it was the global one) is not global any more when the
                     # state is loaded, but it is handed over in the load context: it is in charge of nested objects too
                     loaders.set_object_loader(prev_global)
-                load_ctx = shared_ctx if shared_ctx is not None else persistence.LoadSaveContext(loop=loop)
+                load_ctx = shared_ctx if shared_ctx is not None else persistence.LoadSaveContext(loop=load_loop)
                 if case['load_with'] == 'ctx' and case['loader'] != 'default':
-                    load_ctx = persistence.LoadSaveContext(loop=loop, loader=custom)
+                    load_ctx = persistence.LoadSaveContext(loop=load_loop, loader=custom)
                     if case.get('ctx_extend'):
-                        load_ctx = persistence.LoadSaveContext(loader=custom).copyextend(loop=loop)
+                        load_ctx = persistence.LoadSaveContext(loader=custom).copyextend(loop=load_loop)
                 before_loads = loaders_h.TagLoader.owned_loads
                 if case.get('strict') and case['loader'] == 'default' and not case.get('tamper'):
                     # a loader with an allow-list that does not contain the class of the object: refused, not resolved
                     # through some other loader
                     strict = loaders_h.StrictLoader(allowed=())
                     try:
-                        leaked = persistence.Savable.load(copy.deepcopy(state), persistence.LoadSaveContext(loop=loop, loader=strict))
+                        leaked = persistence.Savable.load(copy.deepcopy(state), persistence.LoadSaveContext(loop=load_loop, loader=strict))
                         v('strict-loader-bypassed', f'a loader that refuses every identifier was given in the load context, yet {type(leaked).__name__} was created')
                     except ValueError:
                         pass
@@ -482,6 +496,11 @@ def execute(case):
                     v('load-raised', f'{type(err).__name__}: {str(err)[:200]}')
                 else:
                     compare(case['instance'], shape, classes, new, 'obj', v)
+                    want_loop = loop if shared_ctx is not None and load_ctx is shared_ctx else load_loop
+                    for where, fut in _futures_of(new, 'obj'):
+                        if fut.get_loop() is not want_loop:
+                            v('future-on-wrong-loop', f'{where}: the restored future ({fut_state(fut)[0]}) lives on the loop that was current while loading, not on the loop given in the load context')
+                            break
                     if case['loader'] != 'default' and loaders_h.TagLoader.owned_loads <= before_loads:
                         v('custom-loader-not-used', 'the class was not resolved through the custom loader')
                     if not viol:
@@ -500,6 +519,7 @@ def execute(case):
     finally:
         loaders.set_object_loader(prev_global)
         loop.shutdown()
+        load_loop.shutdown()
         asyncio.set_event_loop(None)
 
     inst = case['instance']
